@@ -1,10 +1,282 @@
 (* C09 -- String methods follow ES5 15.5 with UTF-16 code-unit indexing.
-   Only statements here; proofs are in C09/Proofs.v. *)
+   Only statements here; proofs are in C09/Proofs.v.
+   Spec  = ES5 15.5.3.2 / 15.5.4.x / 15.5.5 / B.2.3 over lists of UTF-16 code units (C09/Spec.v);
+   Model = otto's builtin_string.go over Go strings with its byte / rune / unit conversions (C09/Model.v);
+   the correspondence run ties Model to the interpreter built from /repo on every check. *)
 From Coq Require Import ZArith List Bool.
 From Otto Require Import Common.Double C09.Utf C09.Spec C09.Model C09.Proofs.
 Import ListNotations.
 Open Scope Z_scope.
 
+(* ---------- spec laws, for all unit lists and all extended-integer positions ---------- *)
+
+(* 15.5.4.7: the result is the least match at or after min(max(pos,0),len), or -1 if there is none *)
+Theorem C09_indexOf_least : forall s t p,
+  let st := clamp p (zlen s) in
+  let k := indexOf s t p in
+  (k = -1 /\ forall j, st <= j <= zlen s -> matches_at t s j = false) \/
+  (st <= k <= zlen s /\ matches_at t s k = true /\ forall j, st <= j < k -> matches_at t s j = false).
+Proof. exact indexOf_least. Qed.
+Print Assumptions C09_indexOf_least.
+
+(* 15.5.4.8: the greatest match at or before the clamped position *)
+Theorem C09_lastIndexOf_greatest : forall s t p,
+  let st := clamp p (zlen s) in
+  let k := lastIndexOf s t p in
+  (k = -1 /\ forall j, 0 <= j <= st -> matches_at t s j = false) \/
+  (0 <= k <= st /\ matches_at t s k = true /\ forall j, k < j <= st -> matches_at t s j = false).
+Proof. exact lastIndexOf_greatest. Qed.
+Print Assumptions C09_lastIndexOf_greatest.
+
+(* slice / substring / substr interrelations *)
+Theorem C09_substring_symmetric : forall s a b, substring s a (Some b) = substring s b (Some a).
+Proof. exact substring_sym. Qed.
+Print Assumptions C09_substring_symmetric.
+
+Theorem C09_slice_is_substring : forall s a b, 0 <= a <= b ->
+  slice s (Fin a) (Some (Fin b)) = substring s (Fin a) (Some (Fin b)).
+Proof. exact slice_is_substring. Qed.
+Print Assumptions C09_slice_is_substring.
+
+Theorem C09_substr_is_slice : forall s a n, 0 <= a -> 0 <= n ->
+  substr s (Fin a) (Some (Fin n)) = slice s (Fin a) (Some (Fin (a + n))).
+Proof. exact substr_is_slice. Qed.
+Print Assumptions C09_substr_is_slice.
+
+Theorem C09_slice_tail_is_substr_tail : forall s k, slice s (Fin k) None = substr s (Fin k) None.
+Proof. exact slice_tail_is_substr_tail. Qed.
+Print Assumptions C09_slice_tail_is_substr_tail.
+
+Theorem C09_slice_length : forall s st en,
+  let len := zlen s in
+  let from := rel_index st len in
+  let to := match en with None => len | Some e => rel_index e len end in
+  zlen (slice s st en) = Z.max (to - from) 0.
+Proof. exact slice_length. Qed.
+Print Assumptions C09_slice_length.
+
+(* 15.5.4.14: split by a string, limit not reached, then join with it: the identity (every s, every separator) *)
+Theorem C09_split_join : forall s sep lim, zlen s + 1 < lim ->
+  join sep (split s (Some sep) lim) = s.
+Proof. exact split_join. Qed.
+Print Assumptions C09_split_join.
+
+(* 15.5.4.20: otto's cut set is WhiteSpace + LineTerminator of ES5 7.2 / 7.3, for every code point *)
 Theorem C09_trim_set : forall c, in_trim_set c = is_trim c.
 Proof. exact trim_set_exact. Qed.
 Print Assumptions C09_trim_set.
+
+Theorem C09_trim_ends : forall s c r,
+  (trim s = c :: r -> is_trim c = false) /\ (rev (trim s) = c :: r -> is_trim c = false).
+Proof. exact trim_ends. Qed.
+Print Assumptions C09_trim_ends.
+
+(* ---------- refinement: otto's algorithm = ES5, for every argument list ---------- *)
+
+(* ASCII: bytes = units, so the byte arithmetic of indexOf is exact for every position
+   (negative, fractional, NaN, infinite, beyond the length, omitted) *)
+Theorem C09_indexOf_refines_ascii : forall s t args, ascii s -> ascii t ->
+  m_indexOf s t (length args) (arg_at args 1) =
+  option_map (fun p => VInt (indexOf s t p)) (to_integer (arg_at args 1)).
+Proof. exact indexOf_refines_ascii. Qed.
+Print Assumptions C09_indexOf_refines_ascii.
+
+(* no surrogate units: runes = units, so the rune-indexed methods are exact *)
+Theorem C09_slice_refines_bmp : forall u args, bmp_clean u -> zlen u < 2 ^ 62 ->
+  m_slice (dec16 u) args =
+  match to_integer (arg_at args 0), opt_ext args 1 with
+  | Some st, Some en => Some (VStr (slice u st en))
+  | _, _ => None
+  end.
+Proof. exact slice_refines_bmp. Qed.
+Print Assumptions C09_slice_refines_bmp.
+
+Theorem C09_substring_refines_bmp : forall u args, bmp_clean u -> zlen u < 2 ^ 62 ->
+  m_substring (dec16 u) args =
+  match to_integer (arg_at args 0), opt_ext args 1 with
+  | Some st, Some en => Some (VStr (substring u st en))
+  | _, _ => None
+  end.
+Proof. exact substring_refines_bmp. Qed.
+Print Assumptions C09_substring_refines_bmp.
+
+(* substr: as long as the length argument stays below 2^62 (beyond that start+length wraps: refuted below) *)
+Theorem C09_substr_refines_bmp : forall u args, bmp_clean u -> zlen u < 2 ^ 62 -> substr_len_ok args ->
+  m_substr (dec16 u) args =
+  match to_integer (arg_at args 0), opt_ext args 1 with
+  | Some st, Some ln => Some (VStr (substr u st ln))
+  | _, _ => None
+  end.
+Proof. exact substr_refines_bmp. Qed.
+Print Assumptions C09_substr_refines_bmp.
+
+(* charAt / charCodeAt on a String object whose text has no surrogate and no U+FFFD *)
+Theorem C09_charAt_refines_bmp : forall u a code, bmp_clean u -> ~ In 0xFFFD u -> zlen u < 2 ^ 62 ->
+  option_map (fun i => m_charAt (TStringObj (dec16 u)) i code) (int64_of a) =
+  option_map (fun p => if code then charCodeAt u p else VStr (charAt u p)) (to_integer a).
+Proof. exact charAt_refines_bmp. Qed.
+Print Assumptions C09_charAt_refines_bmp.
+
+Theorem C09_trim_refines_bmp : forall u, bmp_clean u -> enc16 (m_trim (dec16 u)) = trim u.
+Proof. exact trim_refines_bmp. Qed.
+Print Assumptions C09_trim_refines_bmp.
+
+(* the codecs are the identity where the refinements above need it *)
+Theorem C09_codecs_identity : forall u,
+  (bmp_clean u -> dec16 u = u /\ enc16 u = u) /\
+  (ascii u -> enc8 u = u /\ dec8 u = u /\ utf16Length u = zlen u).
+Proof.
+  intro u. split; intro H.
+  - split; [exact (dec16_bmp u H) | exact (enc16_bmp u H)].
+  - repeat split; [exact (enc8_ascii u H) | exact (dec8_ascii u H) | exact (utf16Length_ascii u H)].
+Qed.
+Print Assumptions C09_codecs_identity.
+
+(* the codecs round-trip on every sequence of Unicode scalar values (all planes):
+   string([]rune) / []rune(string) and utf16.Encode / utf16.Decode as transcribed in C09/Utf.v *)
+Theorem C09_utf8_roundtrip : forall s, scalars s -> dec8 (enc8 s) = s.
+Proof. exact dec8_enc8. Qed.
+Print Assumptions C09_utf8_roundtrip.
+
+Theorem C09_utf16_roundtrip : forall s, scalars s -> dec16 (enc16 s) = s.
+Proof. exact dec16_enc16. Qed.
+Print Assumptions C09_utf16_roundtrip.
+
+(* otto's utf16Length of a Go string is the number of UTF-16 units of that string, and the
+   length of a String object is the ES5 length, for every well-formed string (astral included) *)
+Theorem C09_utf16Length_is_unit_length : forall s, scalars s -> utf16Length (enc8 s) = zlen (enc16 s).
+Proof. exact utf16Length_go_string. Qed.
+Print Assumptions C09_utf16Length_is_unit_length.
+
+Theorem C09_length_refines_wellformed : forall s, scalars s ->
+  call_model MLength (RLit (enc16 s)) [] = call_spec MLength (RLit (enc16 s)) [].
+Proof.
+  intros s H. cbn [call_model call_spec this_gostring this_string]. now rewrite (dec16_enc16 s H).
+Qed.
+Print Assumptions C09_length_refines_wellformed.
+
+(* ---------- receivers ---------- *)
+
+(* every receiver other than undefined (and null for substr) is converted by 9.10 + 9.8 *)
+Theorem C09_generic_receiver : forall m r, r <> RUndef -> (m = MSubstr -> r <> RNull) ->
+  this_gostring m r = option_map dec16 (this_string r).
+Proof. exact generic_receiver. Qed.
+Print Assumptions C09_generic_receiver.
+
+(* ---------- localeCompare: the implementation-defined order is a total order ---------- *)
+Theorem C09_localeCompare_total_order : forall a b c,
+  cmp_list a a = 0 /\ cmp_list b a = - cmp_list a b /\ (cmp_list a b = 0 -> a = b) /\
+  (cmp_list a b = -1 \/ cmp_list a b = 0 \/ cmp_list a b = 1) /\
+  (cmp_list a b = -1 -> cmp_list b c = -1 -> cmp_list a c = -1).
+Proof.
+  intros a b c. repeat split.
+  - apply cmp_refl. - apply cmp_antisym. - apply cmp_eq. - apply cmp_range. - apply cmp_trans.
+Qed.
+Print Assumptions C09_localeCompare_total_order.
+
+(* ---------- otto's deviations: refutations of "model = spec" with concrete witnesses ---------- *)
+
+Definition n (z : Z) : arg := ANum (encode_int_or_nan z).
+
+(* unit confusions *)
+Theorem C09_units_indexOf_refuted :      (* "éa".indexOf("a", 1): the position is applied to UTF-8 bytes *)
+  exists s t p, call_model MIndexOf (RLit s) [AStr t; p] <> call_spec MIndexOf (RLit s) [AStr t; p].
+Proof. exists [233; 97], [97], (n 1). vm_compute. discriminate. Qed.
+Print Assumptions C09_units_indexOf_refuted.
+
+Theorem C09_units_lastIndexOf_refuted :  (* "a\U00010000b".lastIndexOf("b", 3) *)
+  exists s t p, call_model MLastIndexOf (RLit s) [AStr t; p] <> call_spec MLastIndexOf (RLit s) [AStr t; p].
+Proof. exists [97; 55296; 56320; 98], [98], (n 3). vm_compute. discriminate. Qed.
+Print Assumptions C09_units_lastIndexOf_refuted.
+
+Theorem C09_units_slice_refuted :        (* "a\U00010000b".slice(1, 2): runes, not units *)
+  exists s a b, call_model MSlice (RLit s) [a; b] <> call_spec MSlice (RLit s) [a; b].
+Proof. exists [97; 55296; 56320; 98], (n 1), (n 2). vm_compute. discriminate. Qed.
+Print Assumptions C09_units_slice_refuted.
+
+Theorem C09_units_substr_refuted :       (* "a\U00010000b".substr(2, 1) *)
+  exists s a b, call_model MSubstr (RLit s) [a; b] <> call_spec MSubstr (RLit s) [a; b].
+Proof. exists [97; 55296; 56320; 98], (n 2), (n 1). vm_compute. discriminate. Qed.
+Print Assumptions C09_units_substr_refuted.
+
+Theorem C09_units_split_refuted :        (* "a\U00010000b".split("") *)
+  exists s, call_model MSplit (RLit s) [AStr []] <> call_spec MSplit (RLit s) [AStr []].
+Proof. exists [97; 55296; 56320; 98]. vm_compute. discriminate. Qed.
+Print Assumptions C09_units_split_refuted.
+
+Theorem C09_surrogate_half_refuted :     (* "a\U00010000b".charAt(1) is U+FFFD, not the high surrogate *)
+  exists s p, call_model MCharAt (RLit s) [p] <> call_spec MCharAt (RLit s) [p].
+Proof. exists [97; 55296; 56320; 98], (n 1). vm_compute. discriminate. Qed.
+Print Assumptions C09_surrogate_half_refuted.
+
+Theorem C09_fffd_sentinel_refuted :      (* "�a".charCodeAt(0) is NaN *)
+  exists s p, call_model MCharCodeAt (RLit s) [p] <> call_spec MCharCodeAt (RLit s) [p].
+Proof. exists [65533; 97], (n 0). vm_compute. discriminate. Qed.
+Print Assumptions C09_fffd_sentinel_refuted.
+
+(* receivers *)
+Theorem C09_charAt_receiver_refuted :    (* String.prototype.charAt.call(5, 0): Go panic instead of "5" *)
+  exists r p, call_model MCharAt r [p] = Some (VErr 9) /\ call_spec MCharAt r [p] = Some (VStr [53]).
+Proof. exists (RNumR 5), (n 0). vm_compute. split; reflexivity. Qed.
+Print Assumptions C09_charAt_receiver_refuted.
+
+Theorem C09_undefined_this_refuted :     (* String.prototype.trim.call(undefined) does not throw *)
+  call_spec MTrim RUndef [] = Some (VErr 6) /\ call_model MTrim RUndef [] <> Some (VErr 6).
+Proof. vm_compute. split; [reflexivity|discriminate]. Qed.
+Print Assumptions C09_undefined_this_refuted.
+
+Theorem C09_substr_null_refuted :        (* String.prototype.substr.call(null, 1) is "ull" *)
+  exists p, call_spec MSubstr RNull [p] = Some (VErr 6) /\ call_model MSubstr RNull [p] = Some (VStr [117; 108; 108]).
+Proof. exists (n 1). vm_compute. split; reflexivity. Qed.
+Print Assumptions C09_substr_null_refuted.
+
+(* positions *)
+Theorem C09_lastIndexOf_nan_refuted :    (* "abcabc".lastIndexOf("c", NaN): -1 instead of 5 *)
+  exists s t, call_model MLastIndexOf (RLit s) [AStr t; ANum nan_bits] = Some (VInt (-1)) /\
+              call_spec MLastIndexOf (RLit s) [AStr t; ANum nan_bits] = Some (VInt 5).
+Proof. exists [97; 98; 99; 97; 98; 99], [99]. vm_compute. split; reflexivity. Qed.
+Print Assumptions C09_lastIndexOf_nan_refuted.
+
+Theorem C09_lastIndexOf_neginf_refuted : (* "aba".lastIndexOf("a", -Infinity): 2 instead of 0 *)
+  exists s t, call_model MLastIndexOf (RLit s) [AStr t; ANum ninf_bits] = Some (VInt 2) /\
+              call_spec MLastIndexOf (RLit s) [AStr t; ANum ninf_bits] = Some (VInt 0).
+Proof. exists [97; 98; 97], [97]. vm_compute. split; reflexivity. Qed.
+Print Assumptions C09_lastIndexOf_neginf_refuted.
+
+Theorem C09_substr_wrap_refuted :        (* "abc".substr(1, Infinity): Go panic instead of "bc" *)
+  exists s, call_model MSubstr (RLit s) [n 1; ANum pinf_bits] = Some (VErr 9) /\
+            call_spec MSubstr (RLit s) [n 1; ANum pinf_bits] = Some (VStr [98; 99]).
+Proof. exists [97; 98; 99]. vm_compute. split; reflexivity. Qed.
+Print Assumptions C09_substr_wrap_refuted.
+
+Theorem C09_lastIndexOf_wrap_refuted :   (* "abc".lastIndexOf("c", 2^63): Go panic instead of 2 *)
+  exists s t, call_model MLastIndexOf (RLit s) [AStr t; n (2 ^ 63)] = Some (VErr 9) /\
+              call_spec MLastIndexOf (RLit s) [AStr t; n (2 ^ 63)] = Some (VInt 2).
+Proof. exists [97; 98; 99], [99]. vm_compute. split; reflexivity. Qed.
+Print Assumptions C09_lastIndexOf_wrap_refuted.
+
+Theorem C09_index_name_refuted :         (* "abc"["01"] is "b", not undefined *)
+  exists s p, call_model MIndex (RLit s) [AStr p] = Some (VStr [98]) /\ call_spec MIndex (RLit s) [AStr p] = Some VUndef.
+Proof. exists [97; 98; 99], [48; 49]. vm_compute. split; reflexivity. Qed.
+Print Assumptions C09_index_name_refuted.
+
+(* ---------- non-vacuity: the hypotheses above are met by concrete values ---------- *)
+Example C09_ascii_hyp_met : ascii [97; 98; 99] /\ bmp_clean [233; 26085; 97] /\ ~ In 0xFFFD [233; 26085; 97] /\ zlen [233; 26085; 97] < 2 ^ 62.
+Proof.
+  split; [repeat constructor; cbv; discriminate|].
+  split; [repeat constructor; cbv; discriminate|].
+  split; [cbn [In]; intros [H|[H|[H|[]]]]; discriminate|reflexivity].
+Qed.
+Example C09_scalars_hyp_met : scalars [97; 233; 26085; 65536; 1114111] /\
+  enc16 [97; 233; 26085; 65536; 1114111] = [97; 233; 26085; 55296; 56320; 56319; 57343].
+Proof. split; [repeat (constructor; [reflexivity|]); constructor | reflexivity]. Qed.
+Example C09_substr_len_ok_met : substr_len_ok [n 1; n 5] /\ substr_len_ok [n 1] /\ substr_len_ok [n 1; ANum ninf_bits].
+Proof. vm_compute. repeat split. Qed.
+Example C09_split_join_hyp_met : zlen [97; 44; 98] + 1 < 2 ^ 32 - 1 /\
+  split [97; 44; 98] (Some [44]) (2 ^ 32 - 1) = [[97]; [98]] /\ join [44] [[97]; [98]] = [97; 44; 98].
+Proof. vm_compute. repeat split. Qed.
+Example C09_slice_hyp_met : 0 <= 1 <= 2 /\ slice [97; 98; 99] (Fin 1) (Some (Fin 2)) = [98].
+Proof. vm_compute. repeat split; discriminate. Qed.
+Example C09_receiver_hyp_met : RNumR 5 <> RUndef /\ (MTrim = MSubstr -> RNumR 5 <> RNull) /\
+  this_gostring MTrim (RNumR 5) = Some [53].
+Proof. repeat split; try discriminate. Qed.
